@@ -417,7 +417,7 @@ pub fn checks() -> Vec<CheckSpec> {
             "boundary-valued deadlines (0, 2^36 ms +-1, 100 and 8000 years, u64::MAX s, max nanos) from callers and peers, with no subscriber / fmt subscriber / OpenTelemetry SDK layer",
             BOTH_REAL, BOTH_STUB, &[]),
         spec("C18", "exploration",
-            vec![gen("client.trace", 2, g_client_trace), gen("client.abandon", 1, g_client_abandon), gen("client.general", 1, g_client_general), gen("server.general", 1, g_server_general), gen("e2e.trace", 3, g_e2e_trace)],
+            vec![gen("client.trace", 2, g_client_trace), gen("client.abandon", 1, g_client_abandon), gen("client.general", 1, g_client_general), gen("server.general", 1, g_server_general), gen("e2e.trace", 3, g_e2e_trace), gen("stubs.retry", 1, g_stubs_retry)],
             q, t,
             "distinct caller-supplied trace ids and sampling decisions per call; wire Request/Cancel contexts and handler contexts compared",
             BOTH_REAL, BOTH_STUB, &[]),
